@@ -621,6 +621,39 @@ Proof.
   apply Rabs_le. split; nra.
 Qed.
 
+(* there is at least one cell, so no cell is longer than the chord either: for chords shorter than
+   the step the error is bounded by 100 * L * (sum of oscillations), not merely 100 * step * ... *)
+Lemma slant_discretisation_error_chord_lemma dens R0 p dir step ms Ms :
+  0 < step ->
+  let e := shift R0 p in let d := vnormalize dir in let L := exit_distance R0 e d in
+  0 < disc R0 e d -> 0 < L ->
+  cells_bounded (along_density dens e d L) (linspace01 (n_cells L step + 1)) ms Ms ->
+  ex_RInt (along_density dens e d L) 0 1 ->
+  Rabs (slant_spec dens R0 p dir step - 100 * L * RInt (along_density dens e d L) 0 1)
+    <= 100 * L * (sumR Ms - sumR ms).
+Proof.
+  intros Hs e d L. subst L d e. cbv beta. intros HD HL Hb Hex.
+  rewrite slant_hit by assumption.
+  set (LL := exit_distance R0 (shift R0 p) (vnormalize dir)) in *.
+  destruct (n_cells_is_ceil LL step Hs HL) as (Hk & _ & _).
+  assert (Hmesh : LL / IZR (n_cells LL step) <= LL).
+  { assert (Hk1 : 1 <= IZR (n_cells LL step)) by (apply IZR_le; assumption).
+    apply (Rmult_le_reg_r (IZR (n_cells LL step))); [lra|].
+    replace (LL / IZR (n_cells LL step) * IZR (n_cells LL step)) with LL by (field; lra). nra. }
+  set (k := n_cells LL step) in *.
+  pose proof (chord_integral_in_bracket dens _ _ LL k ms Ms Hk (Rlt_le _ _ HL) Hb) as [T1 T2].
+  pose proof (column_density_in_bracket dens _ _ LL k ms Ms Hk (Rlt_le _ _ HL) Hb Hex) as [I1 I2].
+  assert (Hkr : 0 < IZR k) by (apply IZR_lt; lia).
+  assert (Hh : 0 < LL / IZR k) by (apply Rdiv_lt_0_compat; assumption).
+  set (h := LL / IZR k) in *.
+  set (T := chord_integral dens (shift R0 p) (vnormalize dir) LL (k + 1)) in *.
+  set (I := 100 * LL * RInt (along_density dens (shift R0 p) (vnormalize dir) LL) 0 1) in *.
+  clearbody T I h. clear Hb Hex.
+  assert (Hsum : sumR ms <= sumR Ms) by nra.
+  assert (Hprod : 0 <= (LL - h) * (sumR Ms - sumR ms)) by (apply Rmult_le_pos; lra).
+  apply Rabs_le. split; nra.
+Qed.
+
 (* ---------------------------------------------------------------- non-vacuity *)
 Example hit_example :
   (0, 0, -2) <> vzero /\
